@@ -3244,10 +3244,10 @@ def run_feffects(a, exc_code):
 #            ["vinfo", version, has_composite, writer units, reader units, file_version] | ["urls", [[number, id, units]...]] |
 #            ["unicodes", [units...]] | ["pascals", [bytes...]] | ["pstr", bytes]
 RTABLE = {1: "TAlphaIds", 2: "TGroupEnabled", 3: "TGroupInfo", 4: "THalftone", 5: "TTransfer", 6: "TDisplayInfo", 7: "TLayerSel",
-          8: "TGridGuides", 9: "TPrintFlagsInfo", 10: "TResolution", 11: "TPixelAspect", 12: "TPrintScale"}
+          8: "TGridGuides", 9: "TPrintFlagsInfo", 10: "TResolution", 11: "TPixelAspect", 12: "TPrintScale", 13: "TNumeric"}
 RTABLE_CLASS = {1: "AlphaIdentifiers", 2: "LayerGroupEnabledIDs", 3: "LayerGroupInfo", 4: "HalftoneScreens", 5: "TransferFunctions",
                 6: "DisplayInfo", 7: "LayerSelectionIDs", 8: "GridGuidesInfo", 9: "PrintFlagsInfo", 10: "ResoulutionInfo",
-                11: "PixelAspectRatio", 12: "PrintScale"}
+                11: "PixelAspectRatio", 12: "PrintScale", 13: "NumericElement"}
 RTABLE_BOOLS = {4: [4, 5]}          # row positions holding '?' fields
 
 
@@ -3311,6 +3311,8 @@ def obj_rsrc(a):
             return R.GridGuidesInfo(head[0], head[1], head[2], [tuple(r) for r in rows])
         if rows:
             raise TypeError("no rows in this class")
+        if k == 13:
+            return R.NumericElement(bits_dbl(head[0]))
         if k == 11:
             return R.PixelAspectRatio(version=head[0], value=bits_dbl(head[1]))
         if k == 12:
@@ -3351,6 +3353,8 @@ def rsrc_of_obj(o):
             return ["table", k, [o.version], [[c.color_space, c.c1, c.c2, c.c3, c.c4, c.opacity, int(c.mode)] for c in o.alpha_channels]]
         if k == 8:
             return ["table", k, [o.version, o.horizontal, o.vertical], [[int(x) for x in r] for r in o.data]]
+        if k == 13:
+            return ["table", k, [dbl_bits(o.value)], []]
         if k == 11:
             return ["table", k, [o.version, dbl_bits(o.value)], []]
         if k == 12:
@@ -3401,7 +3405,9 @@ def g_rsrc(rng, wf=True):
     nrows = lambda: rng.choice([0, 1, 2, 3, 7])
     bit = lambda: rng.choice([0, 1]) if (wf or rng.random() < 0.8) else rng.choice([2, 255])
     f32 = lambda: rng.choice([0, f32_bits(1.0), f32_bits(-2.5), 0x7F800000, 1, 0x80000000, f32_bits(100.0)])
-    t = rng.randrange(19)
+    t = rng.randrange(20)
+    if t == 19:
+        return ["table", 13, [g_dbl_bits(rng)], []]
     if t < 12:
         k = t + 1
         if k in (1, 7):
